@@ -51,9 +51,28 @@ macro_rules! put {
     }};
 }
 
+/// all argument slots from a pseudo-random stream: a mix of moderate finite values, special values and arbitrary bit patterns
+macro_rules! fill_random {
+    ($e:ident, $S:ident, $bits:ty, $seed:expr) => {{
+        let mut g = Rng::new($seed);
+        let mut one = || -> $S {
+            match g.below(10) {
+                0..=4 => ((g.next() >> 11) as f64 / (1u64 << 53) as f64 * 16.0 - 8.0) as $S,
+                5 => [0.0 as $S, -0.0, <$S>::INFINITY, <$S>::NEG_INFINITY, <$S>::NAN, <$S>::MAX, <$S>::MIN, <$S>::MIN_POSITIVE, <$S>::EPSILON, 1.0][g.below(10) as usize],
+                6 => <$S>::from_bits(g.below(8) as $bits),                       // subnormals
+                _ => <$S>::from_bits(g.next() as $bits),                          // any bit pattern
+            }
+        };
+        for x in $e.va.iter_mut().chain($e.vb.iter_mut()).chain($e.vc.iter_mut()).chain($e.qa.iter_mut()).chain($e.qb.iter_mut())
+            .chain($e.ma.iter_mut()).chain($e.mb.iter_mut()) { *x = one(); }
+        $e.sa = one(); $e.sb = one(); $e.sc = one(); $e.sd = one();
+    }};
+}
+
 fn main() {
     let args: Vec<String> = std::env::args().collect();
     quiet_panics();
+    let seed0: u64 = std::env::var("HX_SEED").ok().and_then(|s| s.parse().ok()).unwrap_or(1);
     let mut rep = Report::new();
     let mut n = 0u64;
     read_cases(&args[1], "CASE", |c| {
@@ -68,8 +87,14 @@ fn main() {
                 let mut e32 = env!(f32);
                 let mut e64 = env!(f64);
                 let (slot, lane, sp) = (k["slot"].as_str().unwrap(), k["lane"].as_str().unwrap(), k["sp"].as_str().unwrap());
-                put!(e32, f32, slot, lane, sp);
-                put!(e64, f64, slot, lane, sp);
+                if slot == "rand" {
+                    let sd = lane.parse::<u64>().unwrap() * 1_000_003 + seed0 * 7919;
+                    fill_random!(e32, f32, u32, sd);
+                    fill_random!(e64, f64, u64, sd);
+                } else {
+                    put!(e32, f32, slot, lane, sp);
+                    put!(e64, f64, slot, lane, sp);
+                }
                 if k["slot2"] != "-" {
                     let (s2, p2) = (k["slot2"].as_str().unwrap(), k["sp2"].as_str().unwrap());
                     put!(e32, f32, s2, "all", p2);
@@ -79,7 +104,7 @@ fn main() {
                 match catch(|| run(ty, op, &e32, &e64)) {
                     Ok(true) => {}
                     Ok(false) => rep.spec_error(json!({"what": "operation of the specification is not in the harness dispatch", "ty": ty, "op": op})),
-                    Err(p) => rep.mismatch(json!({"prop": "C18", "ty": ty, "op": op, "slot": slot, "lane": lane, "special": sp,
+                    Err(p) => rep.mismatch(json!({"prop": "C18", "ty": ty, "op": op, "slot": slot, "lane": lane, "special": sp, "hx_seed": seed0,
                         "slot2": k["slot2"], "special2": k["sp2"], "exp": "returns", "got": "panic", "panic": p, "case": c})),
                 }
             }
